@@ -41,6 +41,9 @@ impl Clone for PropertyValue {
 }
 pub uninterp spec fn props_insert(m: PropertyMap, k: Seq<char>, v: PropertyValue) -> PropertyMap;
 impl PropertyMap {
+    #[verifier::external_body] pub fn is_empty(&self) -> bool { unimplemented!() }
+    #[verifier::external_body] pub fn len(&self) -> usize { unimplemented!() }
+    #[verifier::external_body] pub fn contains_key(&self, k: &str) -> bool { unimplemented!() }
     #[verifier::external_body]
     pub fn new() -> (r: Self) ensures r == default_props() { unimplemented!() }
     #[verifier::external_body]
